@@ -20,7 +20,7 @@ TECHNIQUE = ('small-scope enumeration of save/load configurations + stateless ch
              'completion orders of the real loader running on a simulated multiprocessing pool')
 RULE = ('save/load: row counts 1..12 and {99,100,101} (T: 1..120, 999,1000,1001) x row lengths 1..7 x stride 1..8 x element rank '
         '1..3 x dtypes {int8,int32,int64,float32,float64,bool} x compression {0,1,9} x every ordered key subset of <=3 rows '
-        '(on 5-row arrays) x ndarray input x old-style file; every stored 1-D array also through the bulk loader load_h5_as_striped on a one-rank world (lengths and concatenated data); load_as_concatenated: all length vectors in {1..3}^k, k=2,3 '
+        '(on 5-row arrays) x ndarray input x old-style file (plain, strided, and read with default keys: must warn, not fail); every stored 1-D array also through the bulk loader load_h5_as_striped on a one-rank world (lengths and concatenated data); load_as_concatenated: all length vectors in {1..3}^k, k=2,3 '
         '(+ two k=4) x {xtc,h5} x stride {1,2,3} x atom selection x lengths hint x processes {1..4} x ALL completion orders; arrays returned earlier in a shard are re-read after all later loads; '
         'state=(configuration, schedule); non-trivial = ragged array with unequal rows and stride>1 / schedule with a '
         'non-default completion order')
@@ -116,6 +116,30 @@ def check_saveload(case, ctx):
             err = rows_equal(as_rows(back, False), rows)
             if err:
                 ctx.violation('saveload:oldstyle', case, 'old-style round trip: %s' % err)
+                return
+            if stride > 1:
+                # a strided load equals slicing the full load ([:, ::stride], as for new-style files)
+                ctx.ev()
+                back = ra.load(fn, keys=None, stride=stride)
+                err = rows_equal(as_rows(back, False), [r[::stride] for r in rows])
+                if err:
+                    ctx.violation('saveload:oldstyle:stride', case, 'old-style file, stride %d: %s' % (stride, err))
+            # default keys on an old-style file: the library warns that the layout looks old-style; it must not fail internally
+            import warnings
+            ctx.ev()
+            with warnings.catch_warnings(record=True) as w:
+                warnings.simplefilter('always')
+                try:
+                    ra.load(fn)
+                except Exception as e:
+                    if type(e).__name__ == 'DataInvalid':
+                        pass        # a descriptive rejection (array and lengths nodes of different type) is a legitimate answer
+                    else:
+                        ctx.violation('saveload:oldstyle:default_keys:raises:%s' % type(e).__name__, case,
+                                      'ra.load(old-style file) with default keys raised %r instead of warning' % (e,))
+                        return
+            if not any(issubclass(x.category, DeprecationWarning) for x in w):
+                ctx.violation('saveload:oldstyle:default_keys:no_warning', case, 'no DeprecationWarning for an old-style file read with default keys')
             return
         a = ra.RaggedArray([r for r in rows])
         ra.save(fn, a, compression_level=comp)
@@ -185,6 +209,8 @@ def saveload_cases(tier):
                         'keys': list(keys), 'input': 'ragged'})
     for dtype in DTYPES:
         out.append({'lengths': [2, 3, 1], 'dtype': dtype, 'rank': 1, 'stride': 1, 'comp': 1, 'keys': None, 'input': 'oldstyle'})
+        for st in (2, 3):
+            out.append({'lengths': [5, 4, 3, 1], 'dtype': dtype, 'rank': 1, 'stride': st, 'comp': 1, 'keys': None, 'input': 'oldstyle'})
         out.append({'lengths': [4, 4], 'dtype': dtype, 'rank': 1, 'stride': 1, 'comp': 9, 'keys': None, 'input': 'ndarray'})
     return out
 
